@@ -403,6 +403,18 @@ fn gen_extra_label(g: &mut Gen, reserved: &[i128]) -> Item {
     }
 }
 
+/// Labels for the many-extras mode: spread over one-, two-, three-byte integers of both signs and
+/// short texts, never colliding with the typed labels 1-7.
+fn gen_spread_label(g: &mut Gen, i: usize) -> Item {
+    match g.below(5) {
+        0 => Item::Int(8 + g.range_i64(0, 15) as i128),
+        1 => Item::Int(24 + g.range_i64(0, 231) as i128),
+        2 => Item::Int(256 + g.range_i64(0, 60000) as i128),
+        3 => Item::Int(-1 - g.range_i64(0, 300) as i128),
+        _ => Item::Text(format!("{}{}", g.pick(&["", "k", "kk"]), i)),
+    }
+}
+
 fn label_eq(a: &Item, b: &Item) -> bool {
     a == b
 }
@@ -450,14 +462,15 @@ pub fn gen_header(g: &mut Gen, f: &mut Faults, depth: usize) -> Item {
     if depth > 0 && g.ratio(1, if dense { 2 } else { 6 }) {
         entries.push((Item::Int(7), gen_counter_sig(g, f, depth - 1)));
     }
-    // extras
-    let nextra = g.weighted(&[4, 3, 2, 1, 1]);
-    for _ in 0..nextra {
-        let l = gen_extra_label(g, &[1, 2, 3, 4, 5, 6, 7]);
+    // extras (rarely: dozens of them, with labels of mixed encoded lengths)
+    let many = g.ratio(1, 40);
+    let nextra = if many { 20 + g.below(50) } else { g.weighted(&[4, 3, 2, 1, 1]) };
+    for i in 0..nextra {
+        let l = if many { gen_spread_label(g, i) } else { gen_extra_label(g, &[1, 2, 3, 4, 5, 6, 7]) };
         if entries.iter().any(|(k, _)| label_eq(k, &l)) {
             continue;
         }
-        entries.push((l, gen_value(g, 2, true)));
+        entries.push((l, if many { Item::Int(i as i128) } else { gen_value(g, 2, true) }));
     }
     if f.take(g, "non-label-key") {
         let at = g.below(entries.len() + 1);
@@ -552,6 +565,11 @@ fn gen_nested(g: &mut Gen, kind: Kind, f: &mut Faults, depth: usize) -> Item {
             }
             _ => Item::Array(vec![gen_msg(g, kind, &mut Faults { remaining: 1, odds: 1, log: vec![] }, 0)]),
         };
+    }
+    if g.ratio(1, 50) {
+        // rarely: a long list of minimal structures
+        let n = 12 + g.below(40);
+        return Item::Array((0..n).map(|_| gen_msg(g, kind, &mut Faults::none(), 0)).collect());
     }
     let n = if depth == 0 { g.weighted(&[1, 6, 2]) } else { g.weighted(&[1, 5, 3, 1]) };
     Item::Array((0..n).map(|_| gen_msg(g, kind, f, depth.saturating_sub(1))).collect())
@@ -708,13 +726,20 @@ pub fn gen_key(g: &mut Gen, f: &mut Faults) -> Item {
     if g.ratio(1, 3) {
         entries.push((Item::Int(5), gen_nonempty_bstr_field(g, f, "base-iv-bad")));
     }
-    let nextra = g.weighted(&[2, 3, 3, 2, 1]);
-    for _ in 0..nextra {
-        let l = if g.ratio(2, 3) { Item::Int(-(g.range_i64(1, 12)) as i128) } else { gen_extra_label(g, &[1, 2, 3, 4, 5]) };
+    let many = g.ratio(1, 40);
+    let nextra = if many { 20 + g.below(50) } else { g.weighted(&[2, 3, 3, 2, 1]) };
+    for i in 0..nextra {
+        let l = if many {
+            gen_spread_label(g, i)
+        } else if g.ratio(2, 3) {
+            Item::Int(-(g.range_i64(1, 12)) as i128)
+        } else {
+            gen_extra_label(g, &[1, 2, 3, 4, 5])
+        };
         if entries.iter().any(|(k, _)| k == &l) {
             continue;
         }
-        entries.push((l, gen_value(g, 2, true)));
+        entries.push((l, if many { Item::Int(i as i128) } else { gen_value(g, 2, true) }));
     }
     if f.take(g, "non-label-key") {
         let at = g.below(entries.len() + 1);
@@ -781,9 +806,12 @@ pub fn gen_claims(g: &mut Gen, f: &mut Faults) -> Item {
         let v = if f.take(g, "cti-bad") { gen_wrong_kind(g, &["bstr"]) } else { Item::Bytes(g.small_bytes()) };
         entries.push((Item::Int(7), v));
     }
-    let nextra = g.weighted(&[3, 3, 2, 1]);
-    for _ in 0..nextra {
-        let l = if f.take(g, "claim-key-bad") {
+    let many = g.ratio(1, 40);
+    let nextra = if many { 20 + g.below(50) } else { g.weighted(&[3, 3, 2, 1]) };
+    for i in 0..nextra {
+        let l = if many {
+            if g.bool() { Item::Text(format!("c{}", i)) } else { Item::Int(-65537 - g.range_i64(0, 100000) as i128) }
+        } else if f.take(g, "claim-key-bad") {
             match g.below(3) {
                 0 => gen_unregistered(g, reg::CWT_CLAIM_NAME, true),
                 1 => gen_non_label(g),
